@@ -77,6 +77,9 @@ type Cmd struct {
 	NS     string // "db.collection" ("db" alone for listCollections, "" for commit/abortTransaction on admin)
 	ConnID int
 	Body   bson.D
+	// Applied is set on commands that are held by the reply gate: they have been executed, the
+	// reply has not been sent yet (a late reply: what the caller will see is already old).
+	Applied bool
 
 	release chan struct{}
 }
@@ -156,6 +159,7 @@ type Server struct {
 	gmu         sync.Mutex
 	gateOn      bool
 	gateFilter  func(c *Cmd) bool
+	replyFilter func(c *Cmd) bool
 	pending     []*Cmd
 	gateChanged chan struct{}
 }
@@ -370,6 +374,8 @@ func (s *Server) handle(req *request, connID int) (reply bson.D, keep bool) {
 	reply = s.apply(cmd, dbName)
 	s.mu.Unlock()
 
+	s.waitReplyGate(cmd)
+
 	switch fault {
 	case ApplyThenError:
 		finish(fault.String())
@@ -477,6 +483,33 @@ func (s *Server) waitGate(c *Cmd) {
 	}
 }
 
+// waitReplyGate holds an executed command before its reply is sent (see EnableReplyGate).
+func (s *Server) waitReplyGate(c *Cmd) {
+	s.gmu.Lock()
+	if s.replyFilter == nil || !s.replyFilter(c) {
+		s.gmu.Unlock()
+		return
+	}
+	c.Applied = true
+	c.release = make(chan struct{})
+	s.pending = append(s.pending, c)
+	s.gateSignalLocked()
+	s.gmu.Unlock()
+	select {
+	case <-c.release:
+	case <-s.done:
+	}
+}
+
+// EnableReplyGate makes every later command for which filter returns true block AFTER it has been
+// executed and before its reply is sent, until it is released (Release / DisableGate). Such commands
+// appear in Pending() with Applied set. The filter runs with the gate's lock held.
+func (s *Server) EnableReplyGate(filter func(c *Cmd) bool) {
+	s.gmu.Lock()
+	s.replyFilter = filter
+	s.gmu.Unlock()
+}
+
 // EnableGate makes every later command for which filter returns true (nil = all) block on arrival
 // until it is released. The filter is called with the gate's lock held and must not call back
 // into the gate methods.
@@ -492,6 +525,7 @@ func (s *Server) DisableGate() {
 	s.gmu.Lock()
 	s.gateOn = false
 	s.gateFilter = nil
+	s.replyFilter = nil
 	for _, c := range s.pending {
 		close(c.release)
 	}
